@@ -2,6 +2,7 @@ package props
 
 import (
 	"math/big"
+	"strconv"
 	"testing"
 
 	"github.com/db47h/decimal"
@@ -143,6 +144,7 @@ func genC02(t *rapid.T) C02Case {
 		}
 	case "fma":
 		f := genFMA(t, false)
+		f.Zone = fmaProductOutOfRange(f)
 		c.F = &f
 		c.P, c.M = f.P, f.M
 		return c
@@ -219,6 +221,26 @@ func genC02(t *rapid.T) C02Case {
 		c.Lit = l.S
 		lv := h.SpecOf(l.V, 0, 0)
 		c.LV = &lv
+		if rapid.IntRange(0, 9).Draw(t, "pow5") == 0 {
+			// base-10 mantissa with a binary exponent: d x 5^v written out, then p(v+k): the short decimal d x 2^k x 10^v,
+			// mostly representable (Exact expected), sometimes one digit too long for the receiver
+			d := int64(rapid.IntRange(1, 9999).Draw(t, "p5d"))
+			v := int64(rapid.IntRange(1, 400).Draw(t, "p5v"))
+			k := int64(rapid.IntRange(0, 6).Draw(t, "p5k"))
+			m := new(big.Int).Mul(big.NewInt(d), new(big.Int).Exp(big.NewInt(5), big.NewInt(v), nil))
+			neg := rapid.Bool().Draw(t, "p5neg")
+			c.Lit = map[bool]string{false: "", true: "-"}[neg] + m.String() + "p" + strconv.FormatInt(v+k, 10)
+			val := model.FromInt(new(big.Int).Lsh(big.NewInt(d), uint(k)), v)
+			val.Neg = neg
+			lv := h.SpecOf(val, 0, 0)
+			c.LV = &lv
+			if rapid.Bool().Draw(t, "p5p") {
+				c.P = uint(len(val.Digits) + rapid.IntRange(-1, 1).Draw(t, "p5pp"))
+				if c.P < 1 {
+					c.P = 1
+				}
+			}
+		}
 	}
 	c.Z = genRecvPrev(t, c.P, c.M)
 	return c
@@ -267,10 +289,21 @@ func c02Run(c C02Case, o *h.Obs) (got h.Snap, exact model.X, ok bool, fail *h.Fa
 		f := *c.F
 		f.Alias = ""
 		xv, yv, uv := f.X.Val(), f.Y.Val(), f.U.Val()
-		exact = model.AddX(model.MulX(xv, yv).Val, uv)
+		exact = model.AddXP(model.MulX(xv, yv).Val, uv, uint64(f.P))
 		z, x, y, u, _ := fmaVars(f)
 		z.FMA(x, y, u)
-		return h.Read(z), exact, true, nil
+		got = h.Read(z)
+		if f.Zone {
+			// inside the zone of known finding F-03c: the accuracy must be right for the value delivered, or be the
+			// one that goes with range-checking the product before the addition (the listed finding)
+			o.Label("f03c-zone")
+			two := model.FmaRangeChecked(xv, yv, uv, uint64(f.P), model.Mode(f.M))
+			if !two.NaN && got.Malformed == "" && got.Val().Equal(two.V) && model.Acc(got.Acc) == two.Acc {
+				o.Label("f03c-zone:range-checked-product")
+				return got, exact, false, nil
+			}
+		}
+		return got, exact, true, nil
 	}
 	z := setterRecv(c)
 	switch c.Op {
@@ -367,7 +400,7 @@ func checkC02(c C02Case, o *h.Obs) *h.Fail {
 const ruleC02 = "rapid-generated operation instances for every operation the property lists: arithmetic cases from the C01 generator (add/sub/mul/quo/set/setprec), FMA cases from the C03 generator (finite operands), SetInt (big.Int up to 3000 digits, powers of two +-1, rounding patterns), SetInt64/SetUint64 (edges and uniform), NewDecimal (exponents driving over/underflow), SetRat (terminating, repeating, long denominators), SetMantExp (offsets landing inside and outside the range), base-10 literals with known value through Parse/SetString/UnmarshalText; receivers fresh or holding previous zero/finite/infinite contents. Oracle: Acc() == sign(stored value as read back - exact value), both directions (Exact iff equal). Non-trivial = the exact value was not representable (acc != Exact expected), or it has exactly Prec digits, or it is an exact quotient. Deliberately not asserted: accuracy after SetMantExp of a non-finite mantissa (documented attribute copy), Neg/Abs/Sqrt (not listed in the property). Cases whose exact FMA product exponent leaves the range are excluded while F-03c is a listed known finding."
 
 var propC02 = &h.Prop[C02Case]{ID: "C02", Rule: ruleC02, Gen: genC02, Check: checkC02,
-	Matchers: map[string]func(C02Case) bool{"fma-product-exp-out-of-range": func(c C02Case) bool { return c.F != nil && fmaProductOutOfRange(*c.F) }}}
+	Matchers: map[string]func(C02Case) bool{"fma-product-exp-out-of-range": func(c C02Case) bool { return c.F != nil && !c.F.Zone && fmaProductOutOfRange(*c.F) }}}
 
 func TestC02(t *testing.T)       { propC02.Search(t) }
 func TestC02Replay(t *testing.T) { propC02.Replay(t) }
